@@ -83,18 +83,24 @@ def fluxDownTask (L : Layout) (ax : Axis) (g : Sub) : Task :=
   | none => ⟨g, .fluxDown ax⟩
   | some m => ⟨m, .fluxUp ax⟩
 
+/-- the task in slot `s` of an optional neighbour, as a list -/
+def optTask (o : Option Sub) (s : Slot) : List Task :=
+  match o with
+  | some n => [⟨n, s⟩]
+  | none => []
+
 /-- child lists as `set_dependencies` builds them (as multisets; order is not modelled) -/
 def children (L : Layout) (t : Task) : List Task :=
   let g := t.g
   match t.slot with
   | .gradInt => [⟨g, .limiter⟩]
-  | .gradUp ax => ⟨g, .limiter⟩ :: (match ngbUp L ax g with | some n => [⟨n, .limiter⟩] | none => [])
+  | .gradUp ax => ⟨g, .limiter⟩ :: optTask (ngbUp L ax g) .limiter
   | .gradDown _ => [⟨g, .limiter⟩]
   | .limiter => [⟨g, .predict⟩]
   | .predict => [⟨g, .fluxInt⟩, ⟨g, .fluxUp .x⟩, fluxDownTask L .x g, ⟨g, .fluxUp .y⟩,
                  fluxDownTask L .y g, ⟨g, .fluxUp .z⟩, fluxDownTask L .z g]
   | .fluxInt => [⟨g, .updCons⟩]
-  | .fluxUp ax => ⟨g, .updCons⟩ :: (match ngbUp L ax g with | some n => [⟨n, .updCons⟩] | none => [])
+  | .fluxUp ax => ⟨g, .updCons⟩ :: optTask (ngbUp L ax g) .updCons
   | .fluxDown _ => [⟨g, .updCons⟩]
   | .updCons => [⟨g, .updPrim⟩]
   | .updPrim => []
@@ -107,7 +113,7 @@ def parents (L : Layout) (t : Task) : List Task :=
                  gradDownTask L .y g, ⟨g, .gradUp .z⟩, gradDownTask L .z g]
   | .predict => [⟨g, .limiter⟩]
   | .fluxInt => [⟨g, .predict⟩]
-  | .fluxUp ax => ⟨g, .predict⟩ :: (match ngbUp L ax g with | some n => [⟨n, .predict⟩] | none => [])
+  | .fluxUp ax => ⟨g, .predict⟩ :: optTask (ngbUp L ax g) .predict
   | .fluxDown _ => [⟨g, .predict⟩]
   | .updCons => [⟨g, .fluxInt⟩, ⟨g, .fluxUp .x⟩, fluxDownTask L .x g, ⟨g, .fluxUp .y⟩,
                  fluxDownTask L .y g, ⟨g, .fluxUp .z⟩, fluxDownTask L .z g]
